@@ -251,6 +251,13 @@ fn main() {
     composed_table.push_str("];\n");
     std::fs::write(format!("{out_dir}/composed_glue.rs"), format!("{composed_glue}{composed_table}")).unwrap();
 
+    use e4_flows::asyncf;
+    local!(ta_chain_async, asyncf::ta_chain_async, 2);
+    local!(ta_chain_async_second, asyncf::ta_chain_async_second, 2);
+    local!(ta_async_scan, asyncf::ta_async_scan, 1);
+    local!(s_async_scan, asyncf::s_async_scan, 1);
+    local!(ta_resolve_blocking, asyncf::ta_resolve_blocking, 1);
+
     let mut mods = String::new();
     for n in &names {
         mods.push_str(&format!(
